@@ -2,7 +2,7 @@
     Statements only; proofs are in Proofs/StreamFacts.v.  The model (Model/Streams.v)
     mirrors src/storage/stream.rs, commands/streams.rs and the engine.rs x* functions:
     the sorted entry vector with its binary searches as written, last_id, the atomics
-    last_id_millis / last_id_seq / length, ID text parsing with wrapping arithmetic.
+    last_id_millis / last_id_seq / length, ID text parsing with checked arithmetic.
     The wall clock behind `XADD key *` is universally quantified ([now_ms]). *)
 From Ferrous Require Import Base.Bytes Model.Resp Model.Types Model.Strings Model.Streams
   Proofs.BytesFacts Proofs.StreamFacts Proofs.GroupFacts.
@@ -164,14 +164,59 @@ Example c15_auto_exhausted_witness :
   = [bulk "18446744073709551615-18446744073709551615"; r_err; FInt 1].
 Proof. vm_compute. reflexivity. Qed.
 
-(** F-15b, class stream-id-text: ID text is parsed with wrapping arithmetic and empty
-    parts count as 0 *)
-Lemma c15_id_text_refuted :
-  sid_of_bytes (bs "18446744073709551617-1") = Some (1, 1) /\ sid_of_bytes (bs "5-") = Some (5, 0) /\
-  sid_of_bytes (bs "-") = Some (0, 0).
-Proof. vm_compute. auto. Qed.
-(** F-15b, class xadd-duplicate-fields: fields are a map, a repeated field name keeps
-    only the last value *)
+(** formerly F-15b (class stream-id-text, fixed by 3be45c2): ID text -> ID is exact.
+    [parse_digits] (Base/Bytes.v) is the declarative reading of a decimal number: at least one
+    byte, digits only, its unbounded value.  One part of an ID is accepted iff it is such a
+    number and fits in 64 bits, and then it is that number; a whole text is accepted iff it is
+    <number> '-' <number>, and then denotes exactly that pair (StreamId::from_string; used by
+    XADD, XRANGE, XREVRANGE, XREAD, XDEL, XACK, XCLAIM, XPENDING, XGROUP CREATE / SETID and
+    XREADGROUP).  The special forms are recognised by the handlers before from_string is
+    asked: "*" (XADD), "-" / "+" (range bounds, [c15_bound_text]), "$" (XREAD, XGROUP),
+    "0" (XREAD, XGROUP CREATE, XREADGROUP), ">" (XREADGROUP). *)
+Theorem c15_id_part_exact :
+  forall l v, parse_u64_fast l = Some v <-> parse_digits l = Some v /\ v <= u64_max.
+Proof. exact parse_u64_fast_exact. Qed.
+Theorem c15_id_text_exact :
+  forall l a b, sid_of_bytes l = Some (a, b) <->
+  exists da db, l = (da ++ 45 :: db)%list /\ parse_digits da = Some a /\ parse_digits db = Some b /\
+                a <= u64_max /\ b <= u64_max.
+Proof. exact id_text_exact. Qed.
+(** what is refused: no '-' at all, or - split at the first '-' - a part that is empty, holds a
+    non-digit, or exceeds u64::MAX *)
+Theorem c15_id_text_rejected :
+  forall l, sid_of_bytes l = None <->
+  ~ In 45 l \/
+  exists da db, l = (da ++ 45 :: db)%list /\ ~ In 45 da /\
+    (forall a b, ~ (parse_digits da = Some a /\ parse_digits db = Some b /\ a <= u64_max /\ b <= u64_max)).
+Proof. exact id_text_rejected. Qed.
+Theorem c15_id_text_in_u64 : forall l i, sid_of_bytes l = Some i -> in_u64 i.
+Proof. exact id_text_in_u64. Qed.
+(** the text the server prints for an ID is read back as that ID, for every u64 ID *)
+Theorem c15_id_text_roundtrip : forall i, in_u64 i -> sid_of_bytes (sid_to_bytes i) = Some i.
+Proof. exact id_text_roundtrip. Qed.
+(** range bounds: the special form, or an ID *)
+Theorem c15_bound_text :
+  forall special v b i, parse_bound special v b = Some i <->
+  (b = special /\ i = v) \/ (b <> special /\ sid_of_bytes b = Some i).
+Proof.
+  intros special v b i. unfold parse_bound. destruct (beq b special) eqn:E.
+  - apply beq_eq in E. split; [intros H; inversion H; auto | intros [[_ ->]|[H _]]; [reflexivity | contradiction]].
+  - apply beq_false_ne in E. split; [auto | intros [[H _]|[_ H]]; [contradiction | exact H]].
+Qed.
+(** the witnesses of the finding are refused now; the greatest ID is still accepted *)
+Example c15_id_text_witness :
+  sid_of_bytes (bs "18446744073709551617-1") = None /\ sid_of_bytes (bs "1-18446744073709551616") = None /\
+  sid_of_bytes (bs "5-") = None /\ sid_of_bytes (bs "-5") = None /\ sid_of_bytes (bs "-") = None /\
+  sid_of_bytes (bs "5") = None /\ sid_of_bytes (bs "5-3-1") = None /\ sid_of_bytes (bs "007-00") = Some (7, 0) /\
+  sid_of_bytes (bs "18446744073709551615-18446744073709551615") = Some (u64_max, u64_max) /\
+  fst (run_cmds 0 empty_db [cmd ["XADD"; "s"; "18446744073709551617-1"; "a"; "1"]; cmd ["XADD"; "s"; "5-"; "a"; "1"];
+                            cmd ["XADD"; "s"; "-5"; "a"; "1"]; cmd ["XLEN"; "s"]])
+  = [r_err; r_err; r_err; FInt 0].
+Proof. vm_compute. repeat split; reflexivity. Qed.
+
+(** F-15b, class xadd-duplicate-fields (open: the repair needs the entry container changed
+    from a map to a sequence, and an existing unit test of /repo constructs that type directly):
+    fields are a map, a repeated field name keeps only the last value *)
 Lemma c15_duplicate_fields_refuted :
   parse_fields (cmd ["f"; "1"; "f"; "2"]) [] = Some [(bs "f", bs "2")].
 Proof. vm_compute. reflexivity. Qed.
